@@ -236,8 +236,10 @@ func (ex *exampleValidator) validateExampleValueSchemaAgainstSchema(path, in str
 	res := pools.poolOfResults.BorrowResult()
 
 	if schema.Example != nil {
+		// validate against a copy: the validator expands a $ref in place, and schema may point into the parsed spec
+		sch := *schema
 		res.MergeAsWarnings(
-			newSchemaValidator(schema, s.spec.Spec(), path+".example", s.KnownFormats, ex.schemaOptions).Validate(schema.Example),
+			newSchemaValidator(&sch, s.spec.Spec(), path+".example", s.KnownFormats, ex.schemaOptions).Validate(schema.Example),
 		)
 	}
 	if schema.Items != nil {
